@@ -456,7 +456,7 @@ def r4(rr, repo):
             idx = [i for i, (k, v) in enumerate(pc) if k.startswith('truthy(self.mq.send(')][0]
             after = [s for s in stops if s[0] > idx]
             rr.ob('while waiting to send the stop event is polled', bool(after), mod, fn, witness=p.pc_text(), key='poll-send')
-        if p.outcome is None:
+        if p.outcome is None or p.outcome[0] == 'return':     # falling off the end and an early `return` both end the iteration normally
             n_end += 1
             dl = [v for k, v in pc if k == 'isnone(self.exit_after_t)']
             rr.ob('every normal end of loop_once looked at the exit_after deadline', bool(dl), mod, fn, witness=p.pc_text(), key='deadline-tested')
